@@ -54,13 +54,14 @@ def _after_pass(statistics, algorithms, var_bounds, param_bounds, props_dom_indi
             f = function_from_address(TYPE_COMPUTE_DOMAINS, compute_domains_addrs[algorithms[prop_idx]])
             st = f(dom, props_parameters[param_bounds[prop_idx, RG_START]:param_bounds[prop_idx, RG_END]])
             statistics[X + S_REEXEC] += 1
-            if st == PROP_INCONSISTENCY:
+            if algorithms[prop_idx] == _AFFINE_EQ and triggered_propagators[prop_idx]:
+                # still queued at the end of a consistent pass = it ran last and was skipped by the 'previous' rule
+                if st == PROP_INCONSISTENCY or not np.array_equal(dom, ref):
+                    statistics[X + S_KNOWN_AFFINE] += 1
+            elif st == PROP_INCONSISTENCY:
                 statistics[X + S_REFAIL] += 1
             elif algorithms[prop_idx] != _NO_SUB_CYCLE and not np.array_equal(dom, ref):
-                if algorithms[prop_idx] == _AFFINE_EQ and triggered_propagators[prop_idx]:
-                    statistics[X + S_KNOWN_AFFINE] += 1
-                else:
-                    statistics[X + S_NOTFIX] += 1
+                statistics[X + S_NOTFIX] += 1
 
 
 @njit(cache=False)
